@@ -298,7 +298,7 @@ type shared struct {
 
 func runC04(c *Ctx) {
 	im := NewImpl("C04", c.Seed, c.Tier)
-	im.Rule = "one case = one (scenario, crash point) run of the real binary: the scenario (local command that is never started / still running / finished; remote work bound to a second node / to an unreachable node) is run once with VERIF_CRASH_LOG to enumerate the crash points reached by the daemon and by the command runner, then once per (point, hit) with VERIF_CRASH and at plain SIGKILL moments; the daemon is started again on the same data directory, queried, the unit followed to its end, and killed and restarted once more; non-trivial = the crash was reached after the unit ID had been returned to the submitter; distinct by (scenario, point, hit)"
+	im.Rule = "one case = one (scenario, crash point) run of the real binary: the scenario (local command that is never started / still running / finished; remote work bound to a second node / to an unreachable node) is run once with VERIF_CRASH_LOG to enumerate the crash points reached by the daemon and by the command runner, then once per (point, hit) with VERIF_CRASH and at plain SIGKILL moments; the daemon is started again on the same data directory, queried, the unit followed to its end, and killed and restarted once more; non-trivial = the crash was reached after the unit ID had been returned to the submitter; distinct by (scenario, point, hit); remote-output-behind-record: five remote units (Succeeded and Failed) are run to their end on a second node and mirrored, the submitting daemon is SIGKILLed and its copies of the outputs are shortened to what an output mirror lagging behind the status mirror would have stored (none, a seed-chosen part, all but one byte, all = control) while the records stay final with size N; the daemon is started twice on that directory with the executing node alive; each (unit, restart) is one case, non-trivial = fewer than N bytes were stored; after every start the unit must be listed with state, size, work type and binding unchanged and `work results` from 0 must deliver exactly the N bytes and end (60 s; a failure is reported only when a second run from scratch reproduces it)"
 	if c.Bin == "" {
 		fmt.Fprintln(os.Stderr, "C04 needs the receptor binary (VERIF_BIN)")
 		os.Exit(3)
